@@ -21,7 +21,16 @@ def replications(H):
                 ok = h[5] == "ok"
                 if ok:
                     if cur is not None:
-                        cur["end"] = pending_inv.get(h[1], pos)
+                        # the old subscription lasts until the command removes the
+                        # listeners, which it does right before its own first state
+                        # change (a command that overlaps the run waits for the run
+                        # thread first: what is notified meanwhile still belongs to
+                        # the old replication); fall-back: the invoke
+                        inv = pending_inv.get(h[1], pos)
+                        label = "%s#%d" % (h[2], h[1])
+                        own = next((q for q in range(inv, pos) if H[q][0] == "st"
+                                    and (H[q][3] or "").startswith(label)), None)
+                        cur["end"] = own if own is not None else inv
                         out.append(cur)
                         cur = None
                     if h[2] in ("initialize", "initialize_b"):
